@@ -21,6 +21,22 @@ PARSER_NOT_DECIDED = [
     "Transfer-Encoding element grammar (comma list, OWS, chunked last/once) inside set_body_reader is decided by the bounded stand-in; the deductive contract covers the header-level clauses (CL uniqueness/value, CL+TE, HTTP/1.0+TE)",
 ]
 
+KERNEL_TRUSTED = [
+    "ghost kernel model contracts/arbmodel.py + osmodel.py (ASSUMED, written from POSIX): fork() returns 0 in a child whose state is a copy, a fresh pid > 0 in the parent, or fails; "
+    "kill(pid, sig) counts one delivery for an existing child (live or zombie) and fails with ESRCH otherwise; waitpid(-1, WNOHANG) returns a zombie child and removes it, (0, 0) when live children remain, ECHILD when none; "
+    "time.monotonic() is a non-decreasing ghost clock; os.getpid()/getppid() read ghost values",
+    "WORKERS dict model: finite map pid -> worker object with injective values and a size ghost; sorted(..., key=age) returns a permutation ordered by age",
+]
+
+PROCESS_ASSUMPTIONS = [
+    "sequential semantics: a signal handler (SIGCHLD -> reap_workers) does not interleave with the function under verification; each function is verified from every state satisfying the stated invariant instead",
+    "log-message arguments outside the subset are assumed pure and total",
+]
+
+SCHEDULE_NOT_DECIDED = [
+    "the quantifier over schedules / interleavings / real time in the statement is NOT decided by contract-based verification: the claim is the per-function (per-step) projection, from every state satisfying the data-structure invariant; interleavings are sampled by the bounded simulation where one is listed",
+]
+
 PLAN = {
     "C01": {"harness": ["parser_diff"], "harness_checks": {"parser_diff": ["framing"]}, "trusted_base": PARSER_TRUSTED, "assumptions": COMMON_ABSTRACTIONS,
             "not_decided": PARSER_NOT_DECIDED},
@@ -64,4 +80,56 @@ PLAN = {
         "assumptions": COMMON_ABSTRACTIONS,
         "not_decided": ["ChunkedReader as an implementation of the abstract reader is covered by the bounded stand-in only"],
     },
+    "C03": {"harness": ["arbiter_sim"], "harness_checks": {"arbiter_sim": ["c03"]},
+            "trusted_base": KERNEL_TRUSTED + ["worker_class(...) (abstract:WorkerFactory.__call__): returns a NEW worker object with the given age; Worker.__init__ itself is verified under C18",
+                                              "worker.init_process() inside the forked child (abstract WorkerObjInit): returns, raises or exits; Worker.init_process is verified separately against the same interface",
+                                              "util._setproctitle: no effect"],
+            "assumptions": COMMON_ABSTRACTIONS + PROCESS_ASSUMPTIONS,
+            "not_decided": SCHEDULE_NOT_DECIDED + ["Arbiter.run's main loop and sleep()/wakeup() pipe handling are not under contract (bounded simulation only)",
+                                                   "convergence ('once events stop the master converges') is a liveness statement over iterations of run(); decided per step (manage_workers restores the target in one call) and by the bounded simulation"]},
+    "C04": {"harness": ["arbiter_sim"], "harness_checks": {"arbiter_sim": ["c04"]},
+            "trusted_base": KERNEL_TRUSTED + ["sock._sock_type and socket close/unlink model (contracts/creds.py)", "Worker.init_signals (signal.signal / siginterrupt: C library)",
+                                              "SyncWorker.handle is represented by its C05 contract (raises nothing) inside the accept/run loops"],
+            "assumptions": COMMON_ABSTRACTIONS + PROCESS_ASSUMPTIONS,
+            "not_decided": SCHEDULE_NOT_DECIDED + ["'every request already started is answered in full' across a TERM delivered at an arbitrary instruction: decided only as 'handle_exit raises nothing and only clears alive' + 'the sync loops leave at the next loop test'",
+                                                   "gthread graceful wait for futures, gevent / eventlet workers (library event loops): not under contract",
+                                                   "real-time bound 'no later than the graceful timeout': stop()'s deadline loop is verified against the virtual clock of the kernel model"]},
+    "C10": {"harness": ["arbiter_sim"], "harness_checks": {"arbiter_sim": ["c03"]},
+            "trusted_base": KERNEL_TRUSTED + ["sock.create_sockets (trusted; its pieces set_options / UnixSocket.bind are verified)",
+                                              "Application.reload() installs a NEW Config object (abstract ArbApp; what it contains is C16)",
+                                              "Pidfile is represented by a ghost object at this level (its methods are verified under C17)"],
+            "assumptions": COMMON_ABSTRACTIONS + PROCESS_ASSUMPTIONS + ["cfg.env (raw_env) is empty in the reload cases", "the bind address is compared as one opaque string"],
+            "not_decided": SCHEDULE_NOT_DECIDED + ["what concurrent clients observe during the hand-over (refused / reset): follows from 'no listener is closed' only under the OS's listen-queue semantics, not modelled",
+                                                   "'afterwards the pool consists only of new workers' needs the retired workers to exit (liveness); proved: the pool after reload is old+new generation only, exactly the newly configured number are spawned, retirement is oldest-first and touches a new-generation worker only if every older one is retired",
+                                                   "gevent / eventlet / gthread worker loops during reload"]},
+    "C11": {"harness": ["arbiter_sim"], "harness_checks": {"arbiter_sim": ["c11"]},
+            "trusted_base": KERNEL_TRUSTED + ["heartbeat model: worker.tmp.last_update() reads ghost K_hb[worker]; WorkerTmp.notify() (fchmod/utime) refreshes it",
+                                              "select.select blocks at most its timeout and returns a sub-list of its read list or fails with an errno",
+                                              "SyncWorker.handle is represented by its C05 contract inside accept()"],
+            "assumptions": COMMON_ABSTRACTIONS + PROCESS_ASSUMPTIONS,
+            "not_decided": SCHEDULE_NOT_DECIDED + ["real-time bound 'within the timeout plus a small bounded delay' (depends on the master's 1 s select and scheduling)",
+                                                   "heartbeat discipline of the gthread / gevent / eventlet main loops (library event loops, threads): not under contract",
+                                                   "the heartbeat discipline proved for the sync worker is 'a heartbeat is written between any two blocking points (select, accept+handle)'; it does not bound the duration of one request"]},
+    "C14": {"harness": [],
+            "trusted_base": KERNEL_TRUSTED + ["os.execvpe never returns (modelled as leaving through SystemExit with a ghost record of file, argv, environment)",
+                                              "sock.create_sockets (trusted), Arbiter.init_signals (trusted: signal.signal / pipe)", "systemd.sd_notify: no effect",
+                                              "Pidfile is represented by a ghost object at this level (Pidfile.create/rename/unlink verified under C17)",
+                                              "os.environ is a string map with the keys the code touches tracked"],
+            "assumptions": COMMON_ABSTRACTIONS + PROCESS_ASSUMPTIONS + ["Arbiter.start cases: LISTENERS empty at entry, not under systemd socket activation unless LISTEN_PID matches (inlined systemd.listen_fds)",
+                                                                        "worker_class.check_config (gthread only) not modelled"],
+            "not_decided": SCHEDULE_NOT_DECIDED + ["two real masters under client load (whole upgrade / rollback histories): each step (reexec, start of the child, promotion, stop's unlink rule, WINCH) is under contract, their composition over histories is not",
+                                                   "the new master's sockets are 'the very same' kernel sockets: follows from fd inheritance across exec (kernel), proved: the fd numbers passed are exactly the listeners' in order and the child adopts exactly those"]},
+    "C17": {"harness": [],
+            "trusted_base": ["filesystem model contracts/osmodel.py (open/read, mkstemp, os.write, fdopen buffering, atomic rename, unlink; process liveness via os.kill(pid, 0))"],
+            "assumptions": COMMON_ABSTRACTIONS + ["single master acting on the pid file at a time (no concurrent second start racing between validate and rename)", "small writes are complete"],
+            "not_decided": ["races between two masters started at the same instant (TOCTOU between validate() and rename())", "crash points inside the C library / kernel (power loss): rename atomicity is assumed"]},
+    "C20": {"harness": [],
+            "trusted_base": ["credential model contracts/creds.py (POSIX setuid/setgid/initgroups semantics for a privileged process; pwd.getpwuid)",
+                             "filesystem/chown/umask model for the heartbeat file and the unix socket", "util.unlink (trusted)",
+                             "abstract WorkerRun (the worker's run loop) and WApp.wsgi (first application code; may raise anything)"],
+            "assumptions": COMMON_ABSTRACTIONS + PROCESS_ASSUMPTIONS + ["the master runs privileged (euid 0) with saved ids equal to real ids (precondition of set_owner_process)",
+                                                                        "cfg.reload (code reloader) is off in the init_process cases", "cfg.env (raw_env) empty in the init_process cases"],
+            "not_decided": ["user / group NAME resolution in the config validators (validate_user / validate_group -> pwd/grp): not under contract",
+                            "'every generation goes through the same spawn path' is by code structure (spawn_worker is the only fork of workers): proved for spawn_worker -> worker.init_process, not for third-party worker classes overriding init_process without calling super()",
+                            "gevent / eventlet init_process overrides (they call super().init_process() - not verified)"]},
 }
